@@ -1,9 +1,26 @@
 import UF.Driver.Decode
-/- Ops of work group A (see notes/AGENT_GUIDE.md). Return `none` for ops of other groups. -/
+import UF.Model.RegexParse
+/- Ops of work group A (regex core `re…`, C05 `c05…`). Return `none` for ops of other groups. -/
 namespace UF.Ops
+open UF.Re
+
+/-- `re x<pattern> x<subject>`: model of `regexp.Compile` + `MatchString`.
+    `ood` when the pattern is outside the modelled subset (or a syntax error) or the subject is not ASCII. -/
+def opRe (args : List W) : String :=
+  match args with
+  | [p, u] =>
+    match p.bytes?, u.bytes? with
+    | some p, some u =>
+      if !Bytes.isAscii u then "ood -" else
+      match parseRE p with
+      | none => "ood -"
+      | some r => outBool (search r u) ++ " -"
+    | _, _ => "bad-decode"
+  | _ => "bad-arity"
 
 def dispatchA (op : String) (args : List W) : Option String :=
-  match op, args with
-  | _, _ => none
+  match op with
+  | "re" => some (opRe args)
+  | _ => none
 
 end UF.Ops
